@@ -113,6 +113,22 @@ Section EvalSolve.
     - unfold Eval.solve_t_P. rewrite solve_t_out_of_span_no_change by exact Hp. reflexivity.
   Qed.
 
+  (* with the non-negative spelling of t the position served IS the index requested, and it lies in the span *)
+  Corollary eval_pass_served_eq_requested catch (prog : program) n t p (v : vals num) :
+    wf_vals n v -> vars_ok prog (length v) ->
+    py_pos n t = Some p -> 0 <= t ->
+    (prog_lags num prog <= p)%nat -> (p + prog_leads num prog < n)%nat ->
+    Forall (fun a => acc_srv a = Some (Z.to_nat (acc_req a)) /\ 0 <= acc_req a < Z.of_nat n)
+           (snd (eval_pass catch prog t v)).
+  Proof.
+    intros Hwf Hvars Hp Ht Hlag Hlead.
+    pose proof (eval_pass_accesses_in_span num add sub mul div pow neg absf ltb leb eqb zero fun1 fun2 flagged
+                  catch prog n t p v Hwf Hvars Hp Hlag Hlead) as HF.
+    eapply Forall_impl; [|exact HF]. intros a (x & k & _ & _ & Hreq & Hsrv & Hk).
+    apply py_pos_inv in Hp as [_ [[_ Ht']|[Hneg _]]]; [|lia].
+    rewrite Hreq, Hsrv. split; [f_equal; f_equal; lia|lia].
+  Qed.
+
   (* ---- reads never wrap: the access monitor can be switched on without any effect ---- *)
   Theorem monitored_solve_t_eq (prog : program) d o t s :
     wf_vals (length (status s)) (vals_of s) -> vars_ok prog (length (vals_of s)) ->
